@@ -105,6 +105,26 @@ def enc(cfg):
 
 
 def run_one(spec, random_state=None):
+    """spec['repeat'] runs of the same search in this process (thread interleavings differ from run to run); the observable is the concatenation."""
+    r = int(spec.get("repeat", 1))
+    if r <= 1:
+        return _run_once(spec, random_state)
+    out = None
+    for i in range(r):
+        o = _run_once(spec, random_state)
+        if out is None:
+            out = o
+            out.pop("table", None)
+            out.pop("failed_at", None)
+        else:
+            out["asked"] = out["asked"] + [[["!run", str(i), "marker"]]] + o["asked"]
+            out["globals_touched"] = [a or b for a, b in zip(out["globals_touched"], o["globals_touched"])]
+            if o.get("error") and not out.get("error"):
+                out["error"], out["trace"] = o["error"], o.get("trace")
+    return out
+
+
+def _run_once(spec, random_state=None):
     import numpy as np
 
     k = int(spec.get("perturb", 0))
@@ -113,10 +133,14 @@ def run_one(spec, random_state=None):
     np.random.rand(1 + k % 5)
     for _ in range(k % 3):
         random.random()
+    if spec.get("threads"):
+        # another rhythm of thread switches in every process: tasks of a thread pool that share state interleave differently
+        sys.setswitchinterval(1e-6 * (1 + k % 7))
 
     from deephyper.evaluator import Evaluator
     from deephyper.hpo import CBO, RandomSearch, RegularizedEvolution
 
+    classes = {"CBO": CBO, "Random": RandomSearch, "RegEvo": RegularizedEvolution}
     problem = build_problem(spec["space"])
     nobj, fail_mod, fail_region = int(spec.get("nobj", 1)), int(spec.get("fail_mod", 0)), float(spec.get("fail_region", 0.0))
     asked = []
@@ -126,32 +150,63 @@ def run_one(spec, random_state=None):
         asked.append(enc(cfg))
         return objective(cfg, nobj, fail_mod, fail_region)
 
+    async def run_other(job):
+        return objective(dict(job.parameters), 1, 0, 0.0)
+
     out = {}
     with tempfile.TemporaryDirectory(prefix="vp_c07_%d_" % k) as d:
         ev = Evaluator.create(run, method="serial", method_kwargs={"num_workers": 1})
         kw = dict(spec.get("kwargs", {}))
-        cls = {"CBO": CBO, "Random": RandomSearch, "RegEvo": RegularizedEvolution}[spec["search"]]
+        cls = classes[spec["search"]]
         g0 = (np.random.get_state()[1].tobytes(), np.random.get_state()[2], random.getstate())
         search = cls(problem, ev, random_state=int(spec["seed"]) if random_state is None else random_state, log_dir=os.path.join(d, "log_%d" % k), **kw)
+
+        # Another search (another seed, a number of draws that differs from process to process) built from the SAME HpProblem object, after
+        # the observed one, and drawing before and between the steps of the observed one.
+        other, other_steps = None, [0]
+        if spec.get("interfere"):
+            okw = {"CBO": dict(surrogate_model="DUMMY", n_points=32, n_initial_points=2), "RegEvo": dict(population_size=4, sample_size=2), "Random": {}}[spec["interfere"]]
+            other = classes[spec["interfere"]](problem, Evaluator.create(run_other, method="serial", method_kwargs={"num_workers": 1}),
+                                               random_state=7000 + k, log_dir=os.path.join(d, "other_%d" % k), **okw)
+            if isinstance(other, CBO):
+                other._setup_optimizer()
+
+        def other_step():
+            if other is not None:
+                # the parent gives the two processes of an interfered pair consecutive perturbations: different numbers of sampling calls
+                # (ConfigSpace consumes its generator per call, not per sampled configuration)
+                for _ in range(1 + k % 4):
+                    other_steps[0] += 1
+                    cfgs = other.ask(1 + other_steps[0] % 2)
+                    other.tell([(c, objective(c, 1, 0, 0.0)) for c in cfgs])
+
+        def table_of(df):
+            cols = [c for c in df.columns if c.startswith("p:")]
+            df = df.sort_values("job_id", key=lambda s: s.map(lambda j: int(str(j).split(".")[-1]))) if df["job_id"].dtype == object else df.sort_values("job_id")
+            return [[[c[2:], repr(v), type(v).__name__] for c, v in zip(cols, row)] for row in df[cols].values.tolist()]
+
         try:
             if spec.get("mode", "search") == "search":
-                df = search.search(max_evals=int(spec["evals"]))
-                cols = [c for c in df.columns if c.startswith("p:")]
-                df = df.sort_values("job_id", key=lambda s: s.map(lambda j: int(str(j).split(".")[-1]))) if df["job_id"].dtype == object else df.sort_values("job_id")
-                out["table"] = [[[c[2:], repr(v), type(v).__name__] for c, v in zip(cols, row)] for row in df[cols].values.tolist()]
+                n = int(spec["evals"])
+                if other is None:
+                    out["table"] = table_of(search.search(max_evals=n))
+                else:
+                    other_step()
+                    search.search(max_evals=n // 2)
+                    other_step()
+                    out["table"] = table_of(search.search(max_evals=n - n // 2))
             else:
                 # the same sequence of ask(n) / tell calls, n from the spec
                 if isinstance(search, CBO):
                     search._setup_optimizer() if search._opt is None else None
-                done = 0
                 for n in spec["batches"]:
+                    other_step()
                     cfgs = search.ask(n)
                     res = []
                     for cfg in cfgs:
                         asked.append(enc(cfg))
                         res.append((cfg, objective(cfg, nobj, fail_mod, fail_region)))
                     search.tell(res)
-                    done += n
         except Exception as e:  # the proposals made so far are still the observable; the parent compares the error class as well
             if random_state is not None:
                 raise
